@@ -7,7 +7,7 @@ COMPONENT = 'proxy'          # second component: 'uri' (each case names its own)
 QUICK = dict(gen=900)
 THOROUGH = dict(gen=30000)
 
-TRUSTED = ['stub dispatcher (records DispatchMethodCall, returns a gevent AsyncResult it completes as scripted)',
+TRUSTED = ['stub dispatcher (records DispatchMethodCall, returns a gevent AsyncResult it completes as scripted) in 3 of 5 scripts; the real MessageDispatcher over a recording sink, open or still opening at the first call, in the others',
            'ZooKeeperServerSetProvider.KazooClient substituted by a recording class (no connection is made)',
            "urllib.parse.urlsplit (CPython 3.12) as modelled in Model/Uri.lean for printable-ASCII URIs"]
 ASSUMPTIONS = ['interfaces define plain functions; attribute name = function name; no method is called '
@@ -79,7 +79,8 @@ def gen_script(rng, tier):
         a, k = _gen_args(rng)
         out = ['ok', rng.randrange(0, 1000)] if rng.random() < 0.7 else ['err', rng.randrange(1, 50)]
         calls.append([rng.choice(attrs), a, k, rng.random() < 0.4, out])
-    return {'kind': 'proxy', 'classes': classes, 'shape': rng.choice(['chain', 'chain', 'mixin']), 'calls': calls}
+    return {'kind': 'proxy', 'classes': classes, 'shape': rng.choice(['chain', 'chain', 'mixin']), 'calls': calls,
+            'disp': rng.choice(['stub', 'stub', 'stub', 'real-open', 'real-preopen'])}
 
 
 HOSTCH = 'abcdefghijklmnopqrstuvwxyzABCXYZ0123456789.-_~%!$&*+;='
@@ -239,15 +240,90 @@ def run_script(script):
                 complete(self.ar, out)
             return self.ar
 
+        def finish(self, out):
+            complete(self.ar, out)
+
+        def before_measure(self):
+            pass
+
     def complete(ar, out):
         if out[0] == 'ok':
             ar.set(out[1])
         else:
             ar.set_exception(E(out[1]))
 
+    class RealDisp(object):
+        """the real MessageDispatcher (scales/dispatch.py) between the proxy and a recording sink; `preopen`:
+        the first call is made while the dispatcher's Open() is still pending"""
+        def __init__(self, preopen):
+            from scales.constants import SinkProperties
+            from scales.dispatch import MessageDispatcher
+            from scales.message import MethodReturnMessage
+            from scales.sink import ClientMessageSink, SinkProviderBase
+            outer = self
+            self.calls, self.ar, self.plan, self.stack = [], None, None, None
+            self.open_ar = AsyncResult()
+            self.MRM = MethodReturnMessage
+
+            class Lower(ClientMessageSink):
+                def AsyncProcessRequest(self, sink_stack, msg, stream, headers):
+                    outer.calls.append((msg.method, msg.args, msg.kwargs))
+                    outer.stack = sink_stack
+                    late, out = outer.plan
+                    if not late:
+                        outer.finish(out)
+
+                def AsyncProcessResponse(self, sink_stack, context, stream, msg):
+                    pass
+
+                def Open(self):
+                    return outer.open_ar
+
+                def Close(self):
+                    pass
+
+                @property
+                def state(self):
+                    return 2
+
+            class LowerProvider(SinkProviderBase):
+                def CreateSink(self, properties):
+                    return Lower()
+
+                @property
+                def sink_class(self):
+                    return Lower
+            self.real = MessageDispatcher(iface, LowerProvider(), None, {SinkProperties.Label: 'c20'})
+            self.real.Open()
+            if not preopen:
+                self.open_ar.set()
+
+        def Open(self):
+            return self.open_ar
+
+        def Close(self):
+            pass
+
+        def DispatchMethodCall(self, method, args, kwargs, timeout=None):
+            self.ar = self.real.DispatchMethodCall(method, args, kwargs, timeout)
+            return self.ar
+
+        def finish(self, out):
+            stack, self.stack = self.stack, None
+            if stack is None:
+                raise RuntimeError('the request did not reach the sink below the dispatcher')
+            stack.AsyncProcessResponseMessage(self.MRM(out[1]) if out[0] == 'ok' else self.MRM(error=E(out[1])))
+
+        def before_measure(self):
+            if not self.open_ar.ready():
+                self.open_ar.set()
+                rt.drain()
+
     proxy_cls = ClientProxyBuilder.CreateServiceClient(iface)
     try:
-        stub = Stub()
+        dkind = script.get('disp', 'stub')
+        stub = Stub() if dkind == 'stub' else RealDisp(dkind == 'real-preopen')
+        tags.add('dispatcher-' + dkind)
         obj = proxy_cls(stub)
         gen = {k for k, v in vars(proxy_cls).items() if callable(v) and hasattr(v, '__wrapped__')}
         allnames = [n for c in classes for n, _ in c]
@@ -270,12 +346,13 @@ def run_script(script):
             ncalls = len(stub.calls)
             g = gevent.spawn(getattr(obj, attr), *args, **dict(kws))
             rt.drain()
+            stub.before_measure()
             blocked = not g.ready()
             if late:
                 tags.add('late')
                 if stub.ar is None:
                     raise RuntimeError('dispatcher was not called')
-                complete(stub.ar, out)
+                stub.finish(out)
                 rt.drain()
             if not g.ready() or len(stub.calls) != ncalls + 1:
                 raise RuntimeError('call did not finish or dispatcher called %d times' % (len(stub.calls) - ncalls))
@@ -286,9 +363,12 @@ def run_script(script):
                 elif isinstance(v, int) and not isinstance(v, bool):
                     ret = ['ok', v]
                 else:
-                    ret = ['other', 0]
+                    # not a value of the script (e.g. a result object handed back instead of its value):
+                    # encoded as a value no script uses, so that the specification judges it
+                    ret = ['ok', 999999]
             else:
-                ex = g.exception
+                # the real dispatcher hands the sink's error over wrapped in ScalesError(inner_exception=...)
+                ex = getattr(g.exception, 'inner_exception', g.exception)
                 ret = ['err', ex.code] if isinstance(ex, E) else ['raised', type(ex).__name__]
             method, a, k = stub.calls[-1]
             if kws:
@@ -299,7 +379,7 @@ def run_script(script):
         cfg = vfmt([[[nm(n) for n, _ in c] for c in classes]])[1:-1]
     finally:
         ClientProxyBuilder._PROXY_TYPE_CACHE.pop(iface, None)
-    errs = [e for e in rt.take_errors() if e[0] != 'E']
+    errs = [e for e in rt.take_errors() if e[0] not in ('E', 'ScalesError')]
     if errs:
         tags.add('hub-error')
         steps.append(['count', vfmt(['raised', errs[0][0]])])
